@@ -7,7 +7,7 @@ from vlib import treegen as tg, selgen
 
 SEED = int(os.environ.get('VERIF_SEED', '0') or 0)
 IFRAME_DOC = '''<html><body><div id="o"><p id="op" dir="rtl">a</p><iframe id="fr"><html><body><div id="i"><p id="ip">b</p><x id="ix" dir="ltr">c</x></div></body></html></iframe><x id="ox"></x></div><span id="s">d</span><custom-el id="ce"></custom-el></body></html>'''
-SVG_DOC = '''<html xmlns="http://www.w3.org/1999/xhtml"><body><p id="p" dir="ltr" class="a b">t</p><span id="sp" class="b">u</span><svg xmlns="http://www.w3.org/2000/svg" id="svg" class="a"><circle id="c1" class="a"/><a id="sa" href="#" class="b"/></svg><a id="ha" href="#">l</a><form><input id="in" type="checkbox" checked=""/><input id="in2" type="text" disabled=""/><input id="s1" type="submit"/></form></body></html>'''
+SVG_DOC = '''<html xmlns="http://www.w3.org/1999/xhtml"><body><p id="p" dir="ltr" class="a b">t</p><span id="sp" class="b">u</span><svg xmlns="http://www.w3.org/2000/svg" id="svg" class="a"><circle id="c1" class="a"/><a id="sa" href="#" class="b"/><foreignObject id="fo"><linearGradient id="lg"/></foreignObject></svg><a id="ha" href="#">l</a><form><input id="in" type="checkbox" checked=""/><input id="in2" type="text" disabled=""/><input id="s1" type="submit"/></form></body></html>'''
 DOCS = [tg.doc(n) for n in ('forms_hp', 'forms_h5', 'plain_hp', 'xhtml', 'xml', 'multiroot_hp')]
 DOCS.append(bs4.BeautifulSoup(IFRAME_DOC, 'html.parser'))
 DOCS.append(bs4.BeautifulSoup(SVG_DOC, 'xml'))
@@ -22,6 +22,9 @@ ALTS = selgen.general_pool() + [
     'p:dir(ltr)', 'x:dir(ltr)', 'span', 'svg|circle', 'svg|*', 'html|p', '#o p', 'div p', ':--z', ':--d', 'p:defined',
     ':defined', 'x-y', '*|circle', 'input:checked', 'a:link', 'svg|a', 'p:lang(en)', ':root', 'div > p:dir(rtl)',
     '#i x:dir(ltr)', 'iframe p', ':not(p)', ':is(span, p:dir(ltr))', 'li:nth-child(2)', ':has(> p)', 'p:empty',
+    ':root:not(.a)', ':empty:not(p)', ':scope:not(.b)', ':defined:not(.a)', ':dir(ltr):not(.a)', '[id!=x]:empty', ':not(:not(p))',
+    ':not(:empty:not(.a))', 'foreignObject', 'svg|foreignObject', 'linearGradient', 'p, foreignObject', 'a:hover', ':is(a:hover)',
+    ':is(p, :focus)', ':where(:target, span)', ':not(:is(:hover))', 'p:is()', ':is(, p)', ':where()',
 ]
 ALTS = [a for i, a in enumerate(ALTS) if a not in ALTS[:i]]
 # `&`/':scope' at top level depend on the call target only, which is the same on both sides of every law: keep them
@@ -100,6 +103,9 @@ def _laws(pi, ni):
             ok = ok and r['wab'] == r['isab'] and r['mab'] == r['isab']
             ok = ok and sa <= set(r['ab']) and sb <= set(r['ab'])
             ok = ok and set(r['xisa']) == set(r['x']) & set(r['anyisa'])
+            if not (ns and '' in ns):
+                ok = ok and r['isa'] == r['a'] and r['isb'] == r['b']      # ':is(A)' alone is A
+            ok = ok and set(_ids(_sel(f':not(:not({A}))', ns), d)) == set(r['isa'])
             # the same laws with an explicit namespace-free subject (no implied universal that a default namespace limits)
             ok = ok and set(r['anynotab']) == set(r['any']) - set(r['anyisab'])
             ok = ok and set(r['anynota']) == set(r['any']) - set(r['anyisa'])
